@@ -419,7 +419,8 @@ OpStep(e) ==
              \cup (IF ~chkLen THEN {<<"len()/capacity() contract", {"C08"} \cup opp>>} ELSE {})
              \cup (IF ~chkCapReal THEN {<<"capacity() promises more than the stored elements plus the growth budget", {"C08", "C17"}>>} ELSE {})
              \cup (IF ~chkAlloc THEN {<<"allocator ledger / allocation_size (size or alignment of a live block differs from the table layout)",
-                                       {"C02", "C03", "C08", "C13", "C17"} \cup (IF e.op = "drain" THEN {"C10"} ELSE {})>>} ELSE {})
+                                       {"C02", "C03", "C08", "C13", "C17"} \cup (IF e.op = "drain" THEN {"C10"} ELSE {})
+                                                                          \cup (IF e.op = "try_reserve" THEN {"C12"} ELSE {})>>} ELSE {})
              \cup (IF ~chkChurn THEN {<<"allocation grew beyond 16x the space needed for the live-size bound under insert/remove churn", {"C13"}>>} ELSE {})
              \cup (IF ~chkNoAlloc THEN {<<"allocation although len < capacity", {"C08"}>>} ELSE {})
              \cup (IF ~chkReserve THEN {<<"capacity contract of " \o e.op, {"C08"} \cup (IF e.op = "try_reserve" THEN {"C12"} ELSE {})
